@@ -31,6 +31,7 @@ theorem demoOne_heads : ∀ h, demoOne.g.isOneofHead h = true → h = 3 := by
 
 theorem demoOne_oneP : OneP demoOne := by
   refine oneP_of_check (by decide) (fun h hh => by rw [demoOne_heads h hh]; decide) ?_ (fun _ _ => ⟨rfl, rfl⟩)
+    (fun _ => rfl)
   intro n kw i k v h
   simp only [demoOne] at h
   split at h <;> first | (cases h; exact ⟨rfl, rfl⟩) | cases h
